@@ -398,7 +398,7 @@ func init() {
 		h := x.comp(st, "E$int$0", elemSort(SInt))
 		x.assume(fr.curPC, fmt.Sprintf("(forall ((i Int)) (! (=> (and (<= 0 i) (< i %s)) (= (select (select %s %s) i) (select (select %s %s) (+ %s i)))) :pattern ((select (select %s %s) i))))",
 			s.slen(), h, ref, h, s.base(), s.off(), h, ref))
-		return Val{T: i.Type(), C: []string{ite(eq(s.base(), "0"), "0", ref), "0", s.slen(), s.slen()}}
+		return Val{T: i.Type(), C: []string{ref, "0", s.slen(), s.slen()}} // BorrowInts(len) + copy: never nil
 	})
 	reg("(gorgonia.org/tensor.Shape).Eq", "gorgonia v0.9.24 semantics: two rank-0 shapes are equal; a vector (n) equals the column (n,1) and the row (1,n) with n > 1; otherwise same length and equal extents", func(x *Exec, fr *Frame, i *ssa.Call, fn *ssa.Function, args []Val) Val {
 		st := fr.curSt
@@ -449,6 +449,22 @@ func init() {
 			shp := x.tShp(st, t)
 			x.uninterp("concat_sum", []string{SInt, SInt, SInt, SInt}, SInt)
 			total := sx("concat_sum", others.base(), others.off(), others.slen(), axis)
+			if n, ok := litInt(others.slen()); ok && n >= 0 && n <= 4 {
+				// a literal number of further operands (variadic call site): the sum is explicit
+				var terms []string
+				for k := 0; k < int(n); k++ {
+					terms = append(terms, sel2(h, x.tShp(st, oth(fmt.Sprint(k))), axis))
+				}
+				switch len(terms) {
+				case 0:
+					total = "0"
+				case 1:
+					total = terms[0]
+				default:
+					total = sx("+", terms...)
+				}
+				total = x.define("concat_extra", SInt, total)
+			}
 			d := dimsOf{rank: rank, dim: func(k string) string { return ite(eq(k, axis), add(sel2(h, shp, k), total), sel2(h, shp, k)) }}
 			compat := fmt.Sprintf("(forall ((m Int)) (=> (and (<= 0 m) (< m %s)) (and (= %s %s) (= %s %s) (forall ((i Int)) (=> (and (<= 0 i) (< i %s) (not (= i %s))) (= (select (select %s %s) i) (select (select %s %s) i)))))))",
 				others.slen(), x.tRank(st, oth("m")), rank, x.tDtype(st, oth("m")), x.tDtype(st, t), rank, axis, h, x.tShp(st, oth("m")), h, shp)
